@@ -414,6 +414,69 @@ static string do_e1(const vector<string> &a) {
   return deliver_result(&pkt, rx, before, vh::hex(f));
 }
 
+// ---------------------------------------------------------------- E1.31 stream lifecycle
+// One sender node and ONE receiver node kept over the whole history:
+// n frames, TerminateStream, m frames of a new stream.  Frame i of a stream is the base frame with
+// slot 0 replaced by (base[0] + i) mod 256.  Every datagram is delivered as it is sent.
+static vector<uint8_t> nth_frame(const vector<uint8_t> &base, unsigned i) {
+  vector<uint8_t> f = base;
+  f[0] = static_cast<uint8_t>(f[0] + i);
+  return f;
+}
+static string do_e1s(const vector<string> &a) {
+  // e1s <universe> <priority> <n> <frameA> <m> <frameB>
+  using ola::acn::E131Node;
+  unsigned universe = vh::num(a[1]), prio = vh::num(a[2]), n = vh::num(a[3]), m = vh::num(a[5]);
+  vector<uint8_t> fa = vh::unhex(a[4]), fb = vh::unhex(a[6]);
+  ola::io::SelectServer ss;
+  E131Node::Options opts;
+  opts.source_name = "stream";
+  uint8_t cid_bytes[16];
+  for (int k = 0; k < 16; k++) cid_bytes[k] = k + 1;
+  E131Node txn(&ss, "", opts, ola::acn::CID::FromData(cid_bytes));
+  for (int k = 0; k < 16; k++) cid_bytes[k] = 0x80 + k;
+  E131Node rxn(&ss, "", opts, ola::acn::CID::FromData(cid_bytes));
+  txn.m_interface = iface(); rxn.m_interface = iface();
+  txn.m_socket.Init(); rxn.m_socket.Init();
+  DmxBuffer rx;
+  uint8_t prio_out = 0;
+  rxn.m_dmp_inflator.SetHandler(universe, &rx, &prio_out, ola::NewCallback(&on_data));
+  string trace;
+  bool all = true;
+  unsigned delivered = 0;
+  for (unsigned phase = 0; phase < 2; phase++) {
+    unsigned cnt = phase == 0 ? n : m;
+    for (unsigned i = 0; i < cnt; i++) {
+      vector<uint8_t> f = nth_frame(phase == 0 ? fa : fb, i);
+      DmxBuffer tx;
+      tx_fill(&tx, f, NULL);
+      g_sent.clear();
+      bool sent = txn.SendDMX(universe, tx, prio, false);
+      if (!sent || g_sent.size() != 1) return "t=notsent";
+      int before = g_calls;
+      g_rx = g_sent[0]; g_rx_valid = true; set_source();
+      rxn.m_incoming_udp_transport.Receive();
+      bool ok = g_calls > before && buf_s(rx) == vh::hex(f);
+      if (ok) delivered++; else all = false;
+      trace += (g_calls > before ? "1:" : "0:") + buf_s(rx).substr(0, 8) + ",";
+    }
+    if (phase == 0) {
+      g_sent.clear();
+      txn.TerminateStream(universe, prio);
+      vector<vector<uint8_t> > pk = g_sent;
+      trace += "T" + vh::str(pk.size()) + ":";
+      for (size_t k = 0; k < pk.size(); k++) {
+        int before = g_calls;
+        g_rx = pk[k]; g_rx_valid = true; set_source();
+        rxn.m_incoming_udp_transport.Receive();
+        trace += (g_calls > before ? "1" : "0");
+      }
+      trace += ":" + buf_s(rx).substr(0, 8) + ",";
+    }
+  }
+  return "t=" + trace + ";delivered=" + vh::str(delivered) + ";spec=" + vh::str(all ? 1 : 0);
+}
+
 static string handle(const string &p) {
   vector<string> a = vh::split(p);
   const string &op = a[0];
@@ -421,6 +484,7 @@ static string handle(const string &p) {
   if (op == "encd" && a.size() == 4) return do_enc(a);
   if (op == "snd" && a.size() == 8) return do_sn(a);
   if (op == "an2" && a.size() == 11) return do_an2(a);
+  if (op == "e1s" && a.size() == 7) return do_e1s(a);
   if (op == "dec" && a.size() == 4) return do_dec(a);
   if (op == "sn" && a.size() == 7) return do_sn(a);
   if (op == "sa" && a.size() == 8) return do_sa(a);
